@@ -12,6 +12,7 @@ type StressRes struct {
 	Serials    map[string][]int64            `json:"serials,omitempty"`     // op key -> distinct serials observed
 	CtxSerials map[string]map[string][]int64 `json:"ctx_serials,omitempty"` // service -> ctx label -> serials
 	Counts     map[string]int64              `json:"counts,omitempty"`
+	OKOps      map[string]int                `json:"ok_ops,omitempty"` // op key -> successful executions
 }
 
 func (r *runner) stress(op Op) *StressRes { return stressRun(r, op) }
